@@ -1,5 +1,5 @@
 """Checks beyond the HE.tla family."""
-import json, os, random, time
+import json, os, random, re, time
 from common import *
 import arith
 
@@ -213,10 +213,36 @@ def tlc_behaviours(module, mcname, wd, consts_defs, cfg_lines, tag="B", workers=
     return r, out
 
 
+def tlaps_proofs(rep, wd):
+    """Unbounded safety of the two cache designs: the inductive-invariant proofs spec/KeyCacheProof.tla and spec/GaloisCacheProof.tla
+    are re-checked by the TLA+ proof system (any number of threads, any requests) - the bounded TLC runs are the source of the schedules."""
+    import shutil, subprocess
+    if shutil.which("tlapm") is None:
+        rep.cov["tlaps"] = "tlapm not available: proofs not re-checked in this run"
+        return
+    d = os.path.join(wd, "tlaps")
+    os.makedirs(d, exist_ok=True)
+    res = {}
+    for mod, dep in (("KeyCacheProof", "KeyCache"), ("GaloisCacheProof", "GaloisCache")):
+        for f in (mod, dep):
+            shutil.copy(os.path.join(SPEC, f + ".tla"), d)
+        try:
+            r = subprocess.run(["timeout", "600", "tlapm", "--threads", "4", mod + ".tla"], cwd=d, stdout=subprocess.PIPE, stderr=subprocess.STDOUT, text=True)
+        except Exception as ex:
+            raise ToolError("tlapm could not be run: %s" % ex)
+        m = re.search(r"All (\d+) obligations proved", r.stdout)
+        if not m:
+            log(r.stdout[-2000:])
+            raise ToolError("the proof %s.tla is not accepted by tlapm" % mod)
+        res[mod] = int(m.group(1))
+    rep.cov["tlaps_obligations_proved"] = res
+
+
 def check_c17(rep):
     quick = rep.tier == "quick"
     wd = workdir("C17")
     pset = "bgv_8_17_40,40"
+    tlaps_proofs(rep, wd)
     behs = []
     stats = rep.cov.setdefault("runs", [])
     # ---- key-power cache: all interleavings for every combination of requested powers
